@@ -50,11 +50,14 @@ def generate(rng, tier, rep):
                               # the first of the k layers is the unit-test layer (a layer like any other under -j N)
                               'unit_first': N > 1 and rng.random() < 0.4,
                               # one of the layers runs no test at all (its set-up failed in the child): its block is printed like any other
-                              'zero_child': rng.randrange(k) if rng.random() < 0.3 else None})
+                              'zero_child': rng.randrange(k) if rng.random() < 0.3 else None,
+                              # the runner is confined to fewer processors than -j names
+                              'cpus': rng.choice([1, 2]) if N >= 2 and rng.random() < 0.3 else None})
     for c in cases:
         rep.count('k=%d' % c['k'])
         rep.count('N=%d' % c['N'])
         rep.count('slow stdout' if c['slow'] else 'prompt stdout')
+        rep.count('confined to %s processors' % (c.get('cpus') or 'all'))
         rep.count('unit-test layer among the k layers' if c.get('unit_first') else 'named layers only')
         rep.count('collector=%s' % ('immediate' if c['N'] == 1 else 'keepalive' if c['verbosity'] == '-vv' else 'deferred'))
     return cases
@@ -105,6 +108,8 @@ def run_sched(i, c):
     spec = {'dir': d, 'args': ['--path', d, '--tests-pattern', '^%s$' % mod] + world['options'], 'script_parts': world['script_parts']}
     if c.get('slow'):
         spec['slow_stdout'] = 0.15
+    if c.get('cpus'):
+        spec['cpus'] = c['cpus']
     env = fw.impl_env({'VW_WORLD': os.path.join(d, 'world.json'), 'VW_TRACE': os.path.join(d, 'trace.jsonl'),
                        'VW_FAKE': os.path.join(d, 'fake.json')})
     p = subprocess.Popen([fw.PY, os.path.join(fw.HARNESS, 'drive_world.py')], stdin=subprocess.PIPE, stdout=subprocess.PIPE,
